@@ -22,6 +22,8 @@ def build_corpus(seed, tier):
             t = copy.deepcopy(s)
             t.sid = f"H{mode[0]}{s.sid}"
             t.derives = "::core::clone::Clone, ::core::marker::Copy"
+            if "Ord" in s.derives:
+                t.derives += ", ::core::cmp::PartialEq, ::core::cmp::Eq, ::core::cmp::PartialOrd, ::core::cmp::Ord"
             t.hostile = mode
             t.family = "H" + mode
             out.subjects.append(t)
